@@ -12,9 +12,13 @@
       rt   package                      open, save, open, save; also prints wfb and no_default_clashb
       pres srckind package k rid*k      Presentation(): srckind m members, f not found, z not a zip
       reg  package                      regularise
+      encrels m  then m times id type target mode      the text model/OpcCodec.v writes for a rels item
+      decrels text                      none, or m then m times id type target mode read by OpcCodec
+      encct  d (ext type)*d o (partname type)*o        the text written for the content types item
+      decct  text                       none, or d (ext type)*d o (partname type)*o
 *)
 From V.lib Require Import Prelude Wire.
-From V.model Require Import PackUri Opc.
+From V.model Require Import PackUri Opc OpcCodec.
 From V.gen Require Import GenC01.
 
 Record wblob := mkW { w_tok : N; w_flag : N; w_rels : option (list rel); w_ct : option cts }.
@@ -259,9 +263,71 @@ Definition run_pres (kind : str) (fs : list str) : str :=
         end
     end.
 
+(** ---- the concrete codec of model/OpcCodec.v ---- *)
+Definition op_encrels : str := [101; 110; 99; 114; 101; 108; 115]%N.
+Definition op_decrels : str := [100; 101; 99; 114; 101; 108; 115]%N.
+Definition op_encct : str := [101; 110; 99; 99; 116]%N.
+Definition op_decct : str := [100; 101; 99; 99; 116]%N.
+Definition w_none_ : str := [110; 111; 110; 101]%N.
+
+Definition cts_fields (c : cts) : list str :=
+  show_nat (length (fst c)) :: flat_map pair_fields (fst c)
+  ++ show_nat (length (snd c)) :: flat_map pair_fields (snd c).
+
+Definition run_codec (op : str) (rest : list str) : option str :=
+  if str_eqb op op_encrels then
+    Some match rest with
+         | m :: fs => match parse_nat m with
+                      | Some mn => match take_rels mn fs with
+                                   | Some (l, []) => show_str (enc_rels_c l)
+                                   | _ => w_badcase
+                                   end
+                      | None => w_badcase
+                      end
+         | [] => w_badcase
+         end
+  else if str_eqb op op_decrels then
+    Some match rest with
+         | [t] => match dec_rels_c t with
+                  | Some l => fields (show_nat (length l) :: flat_map rel_fields l)
+                  | None => w_none_
+                  end
+         | _ => w_badcase
+         end
+  else if str_eqb op op_encct then
+    Some match rest with
+         | d :: fs =>
+             match parse_nat d with
+             | Some dn =>
+                 match take_pairs dn fs with
+                 | Some (ds, o :: fs2) =>
+                     match parse_nat o with
+                     | Some on_ => match take_pairs on_ fs2 with
+                                   | Some (os, []) => show_str (enc_ct_c (ds, os))
+                                   | _ => w_badcase
+                                   end
+                     | None => w_badcase
+                     end
+                 | _ => w_badcase
+                 end
+             | None => w_badcase
+             end
+         | [] => w_badcase
+         end
+  else if str_eqb op op_decct then
+    Some match rest with
+         | [t] => match dec_ct_c t with
+                  | Some c => fields (cts_fields c)
+                  | None => w_none_
+                  end
+         | _ => w_badcase
+         end
+  else None.
+
 Definition run_opc (args : list str) : str :=
   match args with
   | op :: rest =>
+      match run_codec op rest with Some out => out | None =>
       if str_eqb op op_rt then
         match take_package rest with
         | Some (p, []) => run_rt p
@@ -278,6 +344,7 @@ Definition run_opc (args : list str) : str :=
         | _ => w_badcase
         end
       else w_badcase
+      end
   | [] => w_badcase
   end.
 
